@@ -2,9 +2,9 @@ import os, subprocess, sys
 sys.path.insert(0, os.path.dirname(os.path.dirname(os.path.abspath(__file__))))
 import vlib
 
-# rows of the generated table known today to disagree with the specification (see known_findings.json): the unknown extensions.
-# (the JMI / Call-Invite / addresses rows were repaired in /repo 968e727, 7d68095)
-EXPECTED_OFFENDING = "write=[extensions] parse=[] clash=[] toxml=[extensions] spec=[extensions]"
+# the generated table must have no offending row (JMI / Call-Invite / addresses / unknown extensions were repaired in /repo
+# 968e727, 7d68095, e2ea074)
+EXPECTED_OFFENDING = "write=[] parse=[] clash=[] toxml=[] spec=[] unknown-to-spec=[]"
 
 
 def name_offending_rows(chk):
@@ -86,9 +86,8 @@ SPEC = dict(
                "part has a wire identity the spec allows outside the envelope (or is the designated fallback text); unsplit = public "
                "(+) sensitive as multisets up to explicit-fallback copies, each other element in exactly one part; the receive path "
                "recovers every field including the unknown extensions. The predicates are decided in the kernel on the table "
-               "regenerated from the C++ at every run, row by row and in both directions: today every row agrees with the spec except "
-               "`extensions` (application-supplied unknown extensions are written in clear and are missing from the envelope: defect "
-               "theorems + reproduction through the real QXmppClient::sendSensitive); everything else is proved for today's code.",
+               "regenerated from the C++ at every run, row by row and in both directions: today every row agrees with the spec "
+               "(table_agrees_with_spec, table_wf), so all of it holds of today's code for all messages (today_*).",
     level_note="Proved about the guard table, not about the C++ text: the table is extracted by a regex translator and tied to the "
                "library by differential inventories (exhaustive over singles and pairs, sampled beyond). Value-level secrecy and "
                "recovery are exploration (oracle), not proof.",
